@@ -83,7 +83,8 @@ Definition assign (st : rstate) (p : pref) (alias : string) : rstate :=
   end.
 
 (* resolveImportConflict(a, b, lvl); None = fuel exhausted (the Go code recurses
-   without bound: stack overflow) *)
+   without bound: stack overflow).  A name held by the OTHER package of the same call is
+   not a conflict (that package is renamed by this very call): the repair of D12. *)
 Fixpoint resolve (fuel : nat) (st : rstate) (a b : pref) (lvl : nat) : option rstate :=
   match fuel with
   | O => None
@@ -91,19 +92,19 @@ Fixpoint resolve (fuel : nat) (st : rstate) (a b : pref) (lvl : nat) : option rs
     if String.eqb (unique_name (ref_path st a) lvl) (unique_name (ref_path st b) lvl)
     then resolve f st a b (S lvl)
     else
-      let one := fun (st : option rstate) (p : pref) =>
+      let one := fun (st : option rstate) (p other : pref) =>
         match st with
         | None => None
         | Some st =>
           let name := unique_name (ref_path st p) lvl in
           match search_import (rs_map st) name with
           | Some c =>
-            if ref_eqb (PIn (i_path c)) p then Some (assign st p name)
+            if ref_eqb (PIn (i_path c)) p || ref_eqb (PIn (i_path c)) other then Some (assign st p name)
             else resolve f st p (PIn (i_path c)) (S lvl)
           | None => Some (assign st p name)
           end
         end in
-      one (one (Some st) a) b
+      one (one (Some st) a b) b a
   end.
 
 Definition resolve_fuel : nat := 64.
